@@ -26,6 +26,7 @@
 #include "scientificinfo.h"
 
 #define CPCACONVERGENCE 1e-18
+#define CPCAMAXITER 10000 /* upper bound on iterations per component */
 
 /**
  * CPCA model data structure.
